@@ -26,7 +26,7 @@ for f in sorted(files, key=lambda f: -weights[f]):
     k = load.index(min(load))
     shards[k].append(f)
     load[k] += weights[f]
-env = dict(os.environ, PYTHONPATH=d)
+env = dict(os.environ, PYTHONPATH=d, OMP_NUM_THREADS="1", OPENBLAS_NUM_THREADS="1", MKL_NUM_THREADS="1")
 env.pop("QUTIP_VERIF", None)
 tmp = tempfile.mkdtemp()
 procs = []
